@@ -243,6 +243,15 @@ pub fn max_pipe_payload() -> usize {
 /// Runs one child to completion. Every file the child can touch lives in a fresh case
 /// directory under the worker's scratch directory, removed by the caller via `cleanup`.
 pub fn run_child(ctx: &mut Ctx, child: &Child) -> ChildResult {
+    run_child_inner(ctx, child, false)
+}
+
+/// Same, with the working directory set to a sub-directory of the case directory.
+pub fn run_child_in_subdir(ctx: &mut Ctx, child: &Child) -> ChildResult {
+    run_child_inner(ctx, child, true)
+}
+
+fn run_child_inner(ctx: &mut Ctx, child: &Child, subdir: bool) -> ChildResult {
     ctx.serial += 1;
     let dir = ctx.scratch.join(format!("c{}", ctx.serial));
     let _ = std::fs::remove_dir_all(&dir);
@@ -273,7 +282,12 @@ pub fn run_child(ctx: &mut Ctx, child: &Child) -> ChildResult {
         cmd.env("LD_PRELOAD", &ctx.shim);
         cmd.env("SIMIO_PLAN", &plan_path);
     }
-    cmd.current_dir(&dir);
+    if subdir {
+        let _ = std::fs::create_dir_all(dir.join("sub"));
+        cmd.current_dir(dir.join("sub"));
+    } else {
+        cmd.current_dir(&dir);
+    }
     let stdin = match &child.stdin {
         Stdin::Null => Stdio::null(),
         Stdin::File(h) => {
